@@ -16,7 +16,7 @@ def run(ctx):
                MM.import_shape_rule(m["ts_rs"], "C03"), MM.same_relation_rule(m["ts_rs"], "C03"), E.import_prefix_rule(m["ts_rs"], "C03")]
         if fs == "default":
             res = [T.pairing_rule(ctx.syn, "C03"), T.selector_rule(ctx.syn, "C03", rule="C03.R1b"),
-                   T.deps_emission_rule(ctx.syn, m["ts_rs_macros"], "C03", "C03.R6"), D.dedup_key_rule(ctx.syn, "C03", rule="C03.R7"), T.generics_visit_rule(ctx.syn, "C03", "C03.R8")] + res
+                   T.deps_emission_rule(ctx.syn, m["ts_rs_macros"], "C03", "C03.R6"), D.dedup_key_rule(ctx.syn, "C03", rule="C03.R7", crate=m["ts_rs"]), T.generics_visit_rule(ctx.syn, "C03", "C03.R8")] + res
         else:
             for r in res:
                 r.rule += "@" + fs
